@@ -1300,7 +1300,7 @@ class _MapExtend(ast.NodeTransformer):
         return node
 
 
-_PURE_NAMES = {"len", "abs", "min", "max", "float", "int", "bool", "sum", "round", "tuple", "sorted"}
+_PURE_NAMES = {"len", "abs", "min", "max", "float", "int", "bool", "sum", "round", "tuple", "sorted", "type", "isinstance", "issubclass"}
 
 
 def _pure_expr(e):
@@ -1411,6 +1411,7 @@ def _inline_pure_helpers(tree):
     # private static methods that are pure straight-line code: Class._h(..) / cls._h(..) / self._h(..)
     for cdef in [n for n in tree.body if isinstance(n, ast.ClassDef)]:
         statics = {}
+        bound_methods = {}
         for st in cdef.body:
             if isinstance(st, ast.FunctionDef) and [ast.unparse(d) for d in st.decorator_list] == ["staticmethod"] and st.name.startswith("_") and not st.name.startswith("__"):
                 bare = copy.copy(st)
@@ -1418,13 +1419,26 @@ def _inline_pure_helpers(tree):
                 q = qualifies(bare, need_private=False)
                 if q is not None:
                     statics[st.name] = q
-        if not statics:
+            elif isinstance(st, ast.FunctionDef) and not st.decorator_list and st.name.startswith("_") and not st.name.startswith("__") and st.args.args:
+                # a private method that is one pure expression of its receiver and arguments
+                q = qualifies(st, need_private=False)
+                me = st.args.args[0].arg
+                if q is not None and len(q[1]) == 1 and not any(isinstance(n, ast.Name) and n.id == me and isinstance(n.ctx, ast.Store) for n in ast.walk(st)):
+                    bound_methods[st.name] = q
+        if not statics and not bound_methods:
             continue
 
         class _InlS(ast.NodeTransformer):
             def visit_Call(self, node):
                 self.generic_visit(node)
                 f = node.func
+                if isinstance(f, ast.Attribute) and f.attr in bound_methods and isinstance(f.value, ast.Name) and f.value.id == "self" and not node.keywords and not any(isinstance(x, ast.Starred) for x in node.args):
+                    params, body = bound_methods[f.attr]
+                    if len(node.args) + 1 == len(params) and all(_simple(x) for x in node.args):
+                        out = _Subst(dict(zip(params, [f.value] + list(node.args)))).visit(copy.deepcopy(body[-1].value))
+                        if sum(1 for _ in ast.walk(out)) <= 600:
+                            count[0] += 1
+                            return ast.copy_location(out, node)
                 if isinstance(f, ast.Attribute) and f.attr in statics and isinstance(f.value, ast.Name) and f.value.id in ("self", "cls", cdef.name) and not node.keywords and not any(isinstance(x, ast.Starred) for x in node.args):
                     params, body = statics[f.attr]
                     if len(node.args) == len(params) and all(_simple(x) for x in node.args):
@@ -1439,7 +1453,7 @@ def _inline_pure_helpers(tree):
                 return node
 
         for st in cdef.body:
-            if isinstance(st, ast.FunctionDef) and st.name not in statics:
+            if isinstance(st, ast.FunctionDef) and st.name not in statics and st.name not in bound_methods:
                 _InlS().visit(st)
     if not helpers:
         return count[0]
@@ -1852,6 +1866,98 @@ def _inline_local_procedures(tree):
     return count[0]
 
 
+def _specialise_template_methods(tree):
+    """A class that overrides a *private* method which an inherited method of a base class of the same module calls
+    through `self` (template method with hooks) is given a copy of that inherited method, as attribute look-up would
+    find it; the copy then resolves its hooks in the class it stands in.  Methods using `super()` or name-mangled
+    attributes are not copied."""
+    classes = {st.name: st for st in tree.body if isinstance(st, ast.ClassDef)}
+    count = 0
+
+    def methods(c):
+        return {st.name: st for st in c.body if isinstance(st, ast.FunctionDef)}
+
+    def lineage(c, seen=()):
+        out = []
+        for b in c.bases:
+            if isinstance(b, ast.Name) and b.id in classes and b.id != c.name and b.id not in seen:
+                out.append(classes[b.id])
+                out += lineage(classes[b.id], seen + (c.name,))
+        return out
+
+    for c in list(classes.values()):
+        bases = lineage(c)
+        if len([b for b in c.bases if isinstance(b, ast.Name) and b.id in classes]) != 1 or len(c.bases) != 1:
+            continue  # single inheritance inside the module only: the look-up order is the chain
+        own = methods(c)
+        hooks = {n for n in own if n.startswith("_") and not n.startswith("__")}
+        if not hooks:
+            continue
+        seen = set(own) | {t.id for st in c.body if isinstance(st, ast.Assign) for t in st.targets if isinstance(t, ast.Name)}
+        added = []
+        for b in bases:
+            if len(b.bases) > 1:
+                break
+            for name, m in methods(b).items():
+                if name in seen:
+                    continue
+                seen.add(name)
+                if name.startswith("__") and name.endswith("__") and name in ("__init__", "__new__", "__init_subclass__"):
+                    continue
+                if any(isinstance(n, ast.Name) and n.id in ("super", "__class__") for n in ast.walk(m)):
+                    continue
+                if any(isinstance(n, ast.Attribute) and n.attr.startswith("__") and not n.attr.endswith("__") for n in ast.walk(m)):
+                    continue
+                selfname = m.args.args[0].arg if m.args.args and not any(ast.unparse(d) == "staticmethod" for d in m.decorator_list) else None
+                if selfname is None:
+                    continue
+                used = {n.attr for n in ast.walk(m) if isinstance(n, ast.Attribute) and isinstance(n.value, ast.Name) and n.value.id == selfname and isinstance(n.ctx, ast.Load)}
+                if used & hooks & set(methods(b)) or any((used & hooks) & set(methods(bb)) for bb in bases):
+                    added.append(copy.deepcopy(m))
+        if added:
+            c.body = c.body + added
+            count += len(added)
+    return count
+
+
+def _apply_chosen_callable(tree):
+    """`f = A if c else B` directly followed by a statement that calls f(args) once with simple arguments (f a local
+    that is not used otherwise): the choice is made at the call — `A(args) if c else B(args)`."""
+    count = [0]
+    for fn in [n for n in ast.walk(tree) if isinstance(n, (ast.FunctionDef, ast.AsyncFunctionDef))]:
+        loads = {}
+        stores = {}
+        for n in ast.walk(fn):
+            if isinstance(n, ast.Name):
+                (stores if isinstance(n.ctx, (ast.Store, ast.Del)) else loads).setdefault(n.id, []).append(n)
+
+        def rewrite(stmts):
+            i = 0
+            while i + 1 < len(stmts):
+                st, nx = stmts[i], stmts[i + 1]
+                if isinstance(st, ast.Assign) and len(st.targets) == 1 and isinstance(st.targets[0], ast.Name) and isinstance(st.value, ast.IfExp) and _simple(st.value.body) and _simple(st.value.orelse):
+                    name = st.targets[0].id
+                    if len(stores.get(name, [])) == 1 and len(loads.get(name, [])) == 1 and isinstance(nx, (ast.Return, ast.Assign, ast.Expr)):
+                        calls = [n for n in ast.walk(nx) if isinstance(n, ast.Call) and isinstance(n.func, ast.Name) and n.func.id == name]
+                        top = nx.value
+                        if len(calls) == 1 and calls[0] is top and all(_simple(a) for a in top.args) and all(k.arg and _simple(k.value) for k in top.keywords) and not any(isinstance(a, ast.Name) and a.id == name for a in top.args):
+                            mk = lambda f: ast.Call(func=copy.deepcopy(f), args=copy.deepcopy(top.args), keywords=copy.deepcopy(top.keywords))
+                            nx.value = ast.copy_location(ast.IfExp(test=st.value.test, body=mk(st.value.body), orelse=mk(st.value.orelse)), top)
+                            ast.fix_missing_locations(nx)
+                            del stmts[i]
+                            count[0] += 1
+                            continue
+                i += 1
+            for st in stmts:
+                for fld in ("body", "orelse", "finalbody"):
+                    sub = getattr(st, fld, None)
+                    if isinstance(sub, list) and sub and isinstance(sub[0], ast.stmt) and not isinstance(st, (ast.FunctionDef, ast.AsyncFunctionDef, ast.ClassDef)):
+                        rewrite(sub)
+
+        rewrite(fn.body)
+    return count[0]
+
+
 def _yield_from_loops(tree):
     """a statement `yield from E` whose value is not used hands out the items of E one by one: `for y in E: yield y`
     (`yield from map(f, E)` with a named f: `for y in E: yield f(y)`)"""
@@ -1879,6 +1985,8 @@ def normalise(tree):
     """unroll table-driven loops and fold constant getattr / setattr; returns (tree, number of loops unrolled)"""
     _yield_from_loops(tree)
     _flatten_private_bases(tree)
+    _specialise_template_methods(tree)
+    _apply_chosen_callable(tree)
     _attrgetters(tree)
     _closure_factories(tree)
     _collect_records(tree)
